@@ -353,6 +353,10 @@ func c04Handwritten() []string {
 		Lines("/** guard **/", Fun("limit", "n", " /** neg **/ "+If("n < 0", "{ "+Ret("0")+" }")+" /**** double ****/ "+Ret("n * 2")+" /* end */ "), Print("limit(-5)"), Print("limit(4)"), "/***/", Fun("mkc", "", " /** state **/ "+Var("n", "0")+" /* f */ "+Fun("up", "", " n = n + 1; "+Ret("n")+" ")+" /**/ "+Ret("up")+" "), Var("n", "100"), Var("k1", "mkc()"), Var("k2", "mkc()"), Print("k1()"), Print("k1()"), Print("k2()"), Print("n"), "/* last */"),
 		// built-ins with no fixed count report a wrong count like any function, also when called through a value
 		Lines(Var("m", B["max"]), Fun("callit", "f", " "+Ret("f()")+" "), Print(`"before"`), Print("callit(m)"), Print(`"AFTER"`)), Lines(Print(`"before"`), Print(BI("min")), Print(`"AFTER"`)), Lines(Var("fs", "["+B["max"]+"]"), Print(`"before"`), "fs[0]();", Print(`"AFTER"`)),
+		// names: a leading underscore, a lone underscore, English words that happen to name built-ins elsewhere
+		Lines(Fun("_mk", "", " "+Var("_n", "0")+" "+Fun("_step", "", " _n = _n + 1; "+Ret("_n")+" ")+" "+Ret("_step")+" "), Var("_a", "_mk()"), Var("_b", "_mk()"), Print("_a()"), Print("_a()"), Print("_b()"), Fun("second", "_, v", " "+Ret("v")+" "), Print("second(1, 2)"), Fun("_go", "k, acc", " "+If("k == 0", "{ "+Ret("acc")+" }")+" "+Ret("_go(k - 1, acc + k)")+" "), Print("_go(4, 0)"), Print(`"before"`), Print("second(1)"), Print(`"AFTER"`)),
+		Lines(Fun("pow", "b, e", " "+If("e == 0", "{ "+Ret("1")+" }")+" "+Ret("b * pow(b, e - 1)")+" "), Print("pow(2, 10)"), Fun("abs", "x", " "+If("x < 0", "{ "+Ret("0 - x")+" }")+" "+Ret("x")+" "), Var("f", "abs"), Print("f(-3) + abs(4)"), Fun("game", "", " "+Var("round", "0")+" "+Fun("next", "", " round = round + 1; "+Ret("round")+" ")+" "+Ret("next")+" "), Var("g1", "game()"), Var("g2", "game()"), "g1();", Print("g1()"), Print("g2()"),
+			Fun("max", "a", " "+Ret("a")+" "), Fun("len", "", " "+Ret("0")+" "), Var("sqrt", "1"), Var("clock", "2"), Var("print", "3"), Var("keys", "4"), Var("min", "5"), Var("sin", "6"), Print("max(7) + len() + sqrt + clock + print + keys + min + sin"), Print(`"before"`), Print("abs(1, 2)"), Print(`"AFTER"`)),
 		// a call that executes no ফেরত yields nil, whatever its last statement was
 		Lines(Var("acc", "{total: 0}"), Var("cnt", "0"), Fun("dbl", "y", " "+Ret("y * 2")+" "), Fun("f1", "", " acc.total = acc.total + 50; "), Fun("f2", "", " cnt = cnt + 1; "), Fun("f3", "y", " dbl(y); "), Fun("f4", "", " 7; "), Fun("f5", "a", " a[0] = 4; "), Fun("f6", "", " "+If(False(), "{ "+Ret("1")+" }")+" cnt; "),
 			Print("f1()"), Print("f2() == nil"), Print("[f3(2), f4()]"), Var("arr5", "[0]"), Print("f5(arr5)"), Print("f6()"), IfElse("f1()", Print(`"came back"`), Print(`"nothing came back"`)), Print(`"" + cnt + acc.total`)),
